@@ -440,55 +440,69 @@ _gen_n = [0]
 
 
 def generalise(hyps, goal):
-    """replace the maximal compound bit-vector subterms of the goal that also occur in a hypothesis by fresh constants.
-    The generalised implication is at least as strong: if it is valid so is the original (`sat` proves nothing)."""
-    hyp_ids = set()
-    for h in hyps:
-        todo = [h]
+    """replace maximal "messy" (ite-containing) compound bit-vector subterms that occur in at least two of the formulas
+    (hypotheses, goal) by fresh constants.  The generalised implication is at least as strong: if it is valid so is the
+    original; a `sat` answer proves nothing and is discarded."""
+    memo = {}
+
+    def messy(t):
+        i = t.get_id()
+        if i in memo:
+            return memo[i]
+        r = False
+        if z3.is_app_of(t, z3.Z3_OP_ITE):
+            r = True
+        elif z3.is_app(t):
+            r = any(messy(c) for c in t.children())
+        memo[i] = r
+        return r
+
+    skip = (z3.Z3_OP_ZERO_EXT, z3.Z3_OP_SIGN_EXT, z3.Z3_OP_CONCAT, z3.Z3_OP_ITE, z3.Z3_OP_SELECT, z3.Z3_OP_UNINTERPRETED, z3.Z3_OP_EXTRACT)
+
+    def cands(f):
+        out = {}
+        todo = [f]
         seen = set()
         while todo:
             x = todo.pop()
             i = x.get_id()
-            if i in seen:
+            if i in seen or z3.is_quantifier(x) or not z3.is_app(x):
                 continue
             seen.add(i)
-            if z3.is_quantifier(x):
-                continue
-            hyp_ids.add(i)
-            if z3.is_app(x):
-                todo.extend(x.children())
-    def messy(t):
-        td = [t]
-        sn = set()
-        while td:
-            y = td.pop()
-            if y.get_id() in sn:
-                continue
-            sn.add(y.get_id())
-            if z3.is_app_of(y, z3.Z3_OP_ITE):
-                return True
-            if z3.is_app(y):
-                td.extend(y.children())
-        return False
+            if z3.is_bv(x) and x.num_args() > 0 and not z3.is_bv_value(x) and x.decl().kind() not in skip and messy(x):
+                out[i] = x
+            todo.extend(x.children())
+        return out
 
-    pairs = []
-    todo = [goal]
-    seen = set()
-    while todo:
-        x = todo.pop()
-        i = x.get_id()
-        if i in seen or z3.is_quantifier(x) or not z3.is_app(x):
-            continue
-        seen.add(i)
-        if (z3.is_bv(x) and x.num_args() > 0 and i in hyp_ids and not z3.is_bv_value(x) and messy(x)
-                and x.decl().kind() not in (z3.Z3_OP_ZERO_EXT, z3.Z3_OP_SIGN_EXT, z3.Z3_OP_CONCAT, z3.Z3_OP_ITE, z3.Z3_OP_SELECT)
-                and x.decl().kind() != z3.Z3_OP_UNINTERPRETED):
-            _gen_n[0] += 1
-            pairs.append((x, z3.BitVec('gen!%d' % _gen_n[0], x.size())))
-            continue          # maximal: do not descend
-        todo.extend(x.children())
-    if not pairs:
+    forms = list(hyps) + [goal]
+    count = {}
+    terms = {}
+    for f in forms:
+        for i, x in cands(f).items():
+            count[i] = count.get(i, 0) + 1
+            terms[i] = x
+    shared = {i for i, n in count.items() if n >= 2}
+    if not shared:
         return None
+    # maximal shared terms only
+    chosen = {}
+    for f in forms:
+        todo = [f]
+        seen = set()
+        while todo:
+            x = todo.pop()
+            i = x.get_id()
+            if i in seen or z3.is_quantifier(x) or not z3.is_app(x):
+                continue
+            seen.add(i)
+            if i in shared:
+                chosen[i] = x
+                continue
+            todo.extend(x.children())
+    pairs = []
+    for i, x in chosen.items():
+        _gen_n[0] += 1
+        pairs.append((x, z3.BitVec('gen!%d' % _gen_n[0], x.size())))
     return [z3.substitute(h, *pairs) for h in hyps], z3.substitute(goal, *pairs)
 
 
